@@ -8,7 +8,7 @@ import numpy as np
 from numpy.random import default_rng
 from scipy.stats import qmc
 
-from harness.core import Collector, check, run_hypothesis
+from harness.core import Collector, check, guard_call, run_hypothesis
 from ropt.config.enopt import EnOptConfig
 from ropt.ensemble_evaluator import EnsembleEvaluator
 from ropt.evaluator import EvaluatorResult
@@ -47,6 +47,7 @@ def build_config(case: dict[str, Any]) -> EnOptConfig:
             "perturbation_magnitudes": 1.0,
             "boundary_types": 1,
             "seed": case["seed"],
+            "merge_realizations": bool(case.get("merge")),  # (how the gradient is estimated says nothing about what 'shared' means)
         },
         "samplers": [{"method": {"plain": s["method"], "qualified": "scipy/" + s["method"], "upper": s["method"].upper()}[s.get("spelling", "plain")],
                       "shared": s["shared"], "options": s.get("options") or {}} for s in case["samplers"]],
@@ -212,6 +213,7 @@ def hypothesis_shard(item: dict[str, Any]) -> Collector:
             case["assign"] = assign
         else:
             case["assign"] = None
+        case["merge"] = draw(st.integers(0, 2)) == 0
         case["weights"] = None
         if draw(st.integers(0, 2)) == 0:
             case["weights"] = [draw(st.sampled_from([0.0, 0.0, 1.0, 2.5])) for _ in range(case["R"])]
@@ -223,7 +225,7 @@ def hypothesis_shard(item: dict[str, Any]) -> Collector:
         replay(case)
         nontrivial = False
         classes = [case["kind"], f"samplers={len(case['samplers'])}", "masked" if case["mask"] else "unmasked",
-                   "zero-weight-realizations" if case["weights"] and 0.0 in case["weights"] else "positive-weights",
+                   "merged-gradient" if case.get("merge") else "per-realization-gradient", "zero-weight-realizations" if case["weights"] and 0.0 in case["weights"] else "positive-weights",
                    "variables-without-sampler" if case["assign"] and -1 in case["assign"] else "all-assigned",
                    "several-samplers-no-assignment" if case["assign"] is None and len(case["samplers"]) > 1 else "assignment-or-single"]
         for idx, spec in enumerate(case["samplers"]):
@@ -240,11 +242,26 @@ def hypothesis_shard(item: dict[str, Any]) -> Collector:
     return col
 
 
+def large_shard(item: dict[str, Any]) -> Collector:
+    """Ensembles with more than a thousand (and more than 2**12) points per draw: the whole draw is one QMC sample."""
+    col = Collector(ID)
+    seed = item["seed"]
+    for method in ("lhs", "sobol", "halton", "norm"):
+        for r_n, p_n, shared in ((3, 400, False), (30, 40, False), (2, 1100, True), (5, 900, False)):
+            case = {"kind": "direct" if (r_n + p_n) % 2 else "e2e", "n": 3, "R": r_n, "P": p_n, "seed": seed * 7 + r_n, "calls": 2,
+                    "samplers": [{"method": method, "shared": shared, "spelling": "plain"}], "mask": [True, False, True] if shared else None,
+                    "assign": None, "weights": None, "merge": False}
+            guard_call(col, case, lambda case=case: replay(case))
+            col.case((method, r_n, p_n, shared), nontrivial=True, classes=("large-draw", method, "shared" if shared else "per-realization"),
+                     sample=case)
+    return col
+
+
 def shards(tier: str, seed: int) -> list[dict[str, Any]]:
     nshard = 8 if tier == "quick" else 16
     examples = 250 if tier == "quick" else 4000
-    return [{"seed": seed * 1000 + i, "examples": examples} for i in range(nshard)]
+    return [*({"seed": seed * 1000 + i, "examples": examples} for i in range(nshard)), {"kind": "large", "seed": seed}]
 
 
 def run_shard(item: dict[str, Any]) -> Collector:
-    return hypothesis_shard(item)
+    return large_shard(item) if item.get("kind") == "large" else hypothesis_shard(item)
